@@ -107,7 +107,7 @@ def validate(ctx, grid, fast, draws=2, key='dyn-inst'):
   # ---- (1) the fields of the record --------------------------------------------------------------------------------
   sin_lat = np.asarray(g.nodal_axes[1])
   add(f'grid F eig {ly} {rb}', 'lapEig', desc, g.laplacian_eigenvalues, 'vec')
-  a_w, b_w = g._derivative_recurrence_weights()
+  a_w, b_w = g._derivative_recurrence_weights   # cached_property
   add(f'grid F wts {ly}', 'a,b', desc, (a_w, b_w), 'pair')
   add(f'grid F coslat {fvec(sin_lat)}', 'cosLat', desc, g.cos_lat, 'vec')
   if np.all(np.abs(sin_lat) < 1):
